@@ -25,6 +25,10 @@ func checkC07(c *Check) {
 	ruleNoInputRecursion(c, p, "R07.1")
 	ruleMagicDispatch(c, p, "R07.2")
 	ruleBlockSizeNumeric(c, p, "R07.3")
+	ruleUncompressNoPanic(c, p, "R07.16")
+	ruleReadsChannelNotNil(c, p, "R07.17")
+	c.RuleDoc["R07.17"] = "the consumer's data channel is never left nil while a receive can follow (a nil channel blocks forever)"
+	c.RuleDoc["R07.16"] = "FrameDataBlock.Uncompress cannot panic for any sizes of block and destination (bounds prover)"
 	ruleAllocSites(c, p, "R07.4")
 	ruleGetTotal(c, p, "R07.5")
 	ruleReaderShutdown(c, p, "R07.6")
